@@ -43,6 +43,7 @@ def typed_programs(rng, n):
                  "%s x1; %s x2; T1 y1; T2 y2; CT y3 = 0; %s k1; %s k2;" % (t1, t2, i1, i2),
                  "struct S s, *ps = &s, sa[3]; union U u; enum E e%s;" % (" = A" if with_enum else ""),
                  "%s *p1, *p2; const %s *cp; void *vp; T1 *tp; int (*fp)(int, %s); int f(int, %s); void g(const char *, ...);" % (t1, t1, t2, t2),
+                 "typedef int FT(int, %s); typedef FT *PFT; FT *ft1 = f; PFT ft2 = f; struct OP { char nm; FT *fn; PFT fn2; } op;" % t2,
                  "int h(void) {"]
         body = []
         ops_ar = ["+", "-", "*", "/", "<", ">", "<=", ">=", "==", "!=", "&&", "||"]
@@ -63,6 +64,8 @@ def typed_programs(rng, n):
                 body.append("x2 = s.m; s.n = y1; ps->m = x2; k1 = ps->arr[1]; ps = ps->next; k1 = sa[2].arr[0]; u.i = 1; u.d = 2.0; x2 = (*ps).m;")
             elif c == 6:
                 body.append("k1 = f(1, x2); k1 = fp(k1, s.m); k1 = (*fp)(2, x2); fp = f; fp = &f; g(\"%d\", k1); g(ps->name);")
+                # calls through pointers to a typedef'd function type, with and without the explicit indirection, also as members
+                body.append("k1 = ft1(1, x2); k1 = (*ft1)(2, x2); k1 = ft2(3, x2); op.fn = f; op.fn2 = ft1; k1 = op.fn(4, x2) + op.fn2(5, x2); ft1 = fp; fp = ft2;")
             elif c == 7:
                 body.append("p1 = 0; vp = p1; p1 = vp; cp = p1; vp = ps; ps = vp; tp = p1; p1 = tp; vp = (void *)0; p1 = (void *)0;")
             elif c == 8:
